@@ -120,6 +120,45 @@ theorem Prog.run_extent : ∀ (p : Prog Q V A) (v : Q → List V) (ext : Q → N
         have hi := firstIdx_lt pred _ i hf
         exact Prog.run_extent (k ((v q).take (i + 1))) v _ (bump_le ext v q (i + 1) (by omega) he) res h
 
+theorem le_bump (ext : Q → Nat) (q : Q) (n : Nat) (q' : Q) : ext q' ≤ bump ext q n q' := by
+  unfold bump; split <;> omega
+
+theorem bump_self (ext : Q → Nat) (q : Q) (n : Nat) : n ≤ bump ext q n q := by
+  unfold bump; simp; omega
+
+/-- the extent only grows while a program runs -/
+theorem Prog.run_mono : ∀ (p : Prog Q V A) (v : Q → List V) (ext : Q → Nat) res,
+    p.run v ext = some res → ∀ q, ext q ≤ res.2 q
+  | .done a, _, _, _, h => by cases h; intro q; exact Nat.le_refl _
+  | .fail, _, _, _, h => by simp [Prog.run] at h
+  | .take q n k, v, ext, res, h => by
+      simp only [Prog.run] at h
+      split at h
+      · intro q'
+        exact Nat.le_trans (le_bump ext q n q') (Prog.run_mono (k ((v q).take n)) v _ res h q')
+      · cases h
+  | .upto q pred k, v, ext, res, h => by
+      simp only [Prog.run] at h
+      cases hf : firstIdx pred (v q) with
+      | none => rw [hf] at h; cases h
+      | some i =>
+        rw [hf] at h
+        intro q'
+        exact Nat.le_trans (le_bump ext q (i + 1) q') (Prog.run_mono (k ((v q).take (i + 1))) v _ res h q')
+
+/-- inversion of a successful `take` -/
+theorem Prog.run_take {q : Q} {n : Nat} {k : List V → Prog Q V A} {v : Q → List V} {ext : Q → Nat} {r : A × (Q → Nat)}
+    (h : (Prog.take q n k).run v ext = some r) :
+    n ≤ (v q).length ∧ (k ((v q).take n)).run v (bump ext q n) = some r := by
+  simp only [Prog.run] at h
+  split at h
+  · rename_i hn; exact ⟨hn, h⟩
+  · cases h
+
+theorem Prog.run_done {a : A} {v : Q → List V} {ext : Q → Nat} {r : A × (Q → Nat)}
+    (h : (Prog.done a : Prog Q V A).run v ext = some r) : r = (a, ext) := by
+  simp only [Prog.run, Option.some.injEq] at h; exact h.symm
+
 /-- A network given by reader programs. The answer of a program is (new private state, pops, appends); pops are
 capped by what the program actually read. -/
 structure PNet (Q R V P : Type) where
